@@ -95,13 +95,19 @@ impl std::str::FromStr for FourCC {
     type Err = Error;
 
     fn from_str(s: &str) -> Result<Self> {
-        if let [a, b, c, d] = s.as_bytes() {
-            Ok(Self {
-                value: [*a, *b, *c, *d],
-            })
-        } else {
-            Err(Error::InvalidData("expected exactly four bytes in string"))
+        // Four characters, one byte each (Latin-1), e.g. "ftyp" or "\u{a9}nam".
+        let mut value = [0u8; 4];
+        let mut chars = s.chars();
+        for v in value.iter_mut() {
+            match chars.next() {
+                Some(c) if (c as u32) <= 0xFF => *v = c as u32 as u8,
+                _ => return Err(Error::InvalidData("expected exactly four bytes in string")),
+            }
         }
+        if chars.next().is_some() {
+            return Err(Error::InvalidData("expected exactly four bytes in string"));
+        }
+        Ok(Self { value })
     }
 }
 
@@ -148,7 +154,12 @@ impl fmt::Debug for FourCC {
 
 impl fmt::Display for FourCC {
     fn fmt(&self, f: &mut fmt::Formatter) -> fmt::Result {
-        write!(f, "{}", String::from_utf8_lossy(&self.value[..]))
+        // One character per byte (Latin-1), so that every code has a textual form
+        // that parses back, including codes such as 0xA96E616D ("\u{a9}nam").
+        for b in self.value.iter() {
+            write!(f, "{}", *b as char)?;
+        }
+        Ok(())
     }
 }
 
